@@ -20,7 +20,7 @@ Lemma go_flag_constants_single_bits :
     [F_ALLOW_UNKNOWN; F_WRITE_DEFAULT; F_VALUE_MAPPING; F_HTTP_MAPPING; F_STRING_INT; F_WRITE_REQUIRE; F_NO_BASE64; F_WRITE_OPTIONAL; F_TRACE_BACK].
 Proof. split; [reflexivity|]. repeat constructor. Qed.
 
-Ltac all_opts o := destruct o as [a b c d e f g h i]; destruct a, b, c, d, e, f, g, h, i; reflexivity.
+Ltac all_opts o := destruct o as [a b c d e f g h i j]; destruct a, b, c, d, e, f, g, h, i, j; reflexivity.
 
 (* the word is the sum of the selected bits (so: exactly these bits, nothing else) *)
 Lemma toFlags_exact o :
@@ -29,7 +29,7 @@ Lemma toFlags_exact o :
     bit_if (toFlags_opts_EnableValueMapping o) F_VALUE_MAPPING + bit_if (toFlags_opts_EnableHttpMapping o) F_HTTP_MAPPING +
     bit_if (toFlags_opts_String2Int64 o) F_STRING_INT + bit_if (toFlags_opts_WriteRequireField o) F_WRITE_REQUIRE +
     bit_if (toFlags_opts_NoBase64Binary o) F_NO_BASE64 + bit_if (toFlags_opts_WriteOptionalField o) F_WRITE_OPTIONAL +
-    bit_if (toFlags_opts_ReadHttpValueFallback o) F_TRACE_BACK.
+    bit_if (toFlags_opts_ReadHttpValueFallback o || (toFlags_opts_EnableHttpMapping o && toFlags_opts_TracebackRequredOrRootFields o)) F_TRACE_BACK.
 Proof. all_opts o. Qed.
 
 (* every flag test of the native code reads back the option (DisallowUnknownField: absence of F_ALLOW_UNKNOWN) *)
@@ -42,11 +42,11 @@ Lemma toFlags_tests o :
   flag_on (toFlags o) NF_WRITE_REQUIRE = toFlags_opts_WriteRequireField o /\
   flag_on (toFlags o) NF_NO_BASE64 = toFlags_opts_NoBase64Binary o /\
   flag_on (toFlags o) NF_WRITE_OPTIONAL = toFlags_opts_WriteOptionalField o /\
-  flag_on (toFlags o) NF_TRACE_BACK = toFlags_opts_ReadHttpValueFallback o.
-Proof. destruct o as [a b c d e f g h i]; destruct a, b, c, d, e, f, g, h, i; repeat split; reflexivity. Qed.
+  flag_on (toFlags o) NF_TRACE_BACK = (toFlags_opts_ReadHttpValueFallback o || (toFlags_opts_EnableHttpMapping o && toFlags_opts_TracebackRequredOrRootFields o)).
+Proof. destruct o as [a b c d e f g h i j]; destruct a, b, c, d, e, f, g, h, i, j; repeat split; reflexivity. Qed.
 
 Lemma toFlags_range o : 0 <= toFlags o < 512.
-Proof. destruct o as [a b c d e f g h i]; destruct a, b, c, d, e, f, g, h, i; vm_compute; split; congruence. Qed.
+Proof. destruct o as [a b c d e f g h i j]; destruct a, b, c, d, e, f, g, h, i, j; vm_compute; split; congruence. Qed.
 
 (* for EVERY setting of the nine options: what the native converter reads in the flag word is the model's option record *)
 Lemma toFlags_jopts o :
@@ -64,12 +64,12 @@ Proof. all_opts o. Qed.
 Definition opts_of_jopts (o : J2T.jopts) : toFlags_opts :=
   {| toFlags_opts_DisallowUnknownField := J2T.o_disallow_unknown o; toFlags_opts_EnableHttpMapping := false;
      toFlags_opts_EnableValueMapping := J2T.o_vm o; toFlags_opts_NoBase64Binary := J2T.o_nob64 o; toFlags_opts_ReadHttpValueFallback := false;
-     toFlags_opts_String2Int64 := J2T.o_str2int o; toFlags_opts_WriteDefaultField := false; toFlags_opts_WriteOptionalField := false;
+     toFlags_opts_String2Int64 := J2T.o_str2int o; toFlags_opts_TracebackRequredOrRootFields := false; toFlags_opts_WriteDefaultField := false; toFlags_opts_WriteOptionalField := false;
      toFlags_opts_WriteRequireField := false |}.
 Definition opts_of_wopts (w : Requireness.wopts) : toFlags_opts :=
   {| toFlags_opts_DisallowUnknownField := Requireness.w_disallow_unknown w; toFlags_opts_EnableHttpMapping := false;
      toFlags_opts_EnableValueMapping := false; toFlags_opts_NoBase64Binary := false; toFlags_opts_ReadHttpValueFallback := false;
-     toFlags_opts_String2Int64 := false; toFlags_opts_WriteDefaultField := Requireness.w_default w;
+     toFlags_opts_String2Int64 := false; toFlags_opts_TracebackRequredOrRootFields := false; toFlags_opts_WriteDefaultField := Requireness.w_default w;
      toFlags_opts_WriteOptionalField := Requireness.w_optional w; toFlags_opts_WriteRequireField := Requireness.w_require w |}.
 
 Lemma flags_of_jopts_is_toFlags o : flags_of_jopts o = toFlags (opts_of_jopts o).
@@ -88,7 +88,7 @@ Lemma toFlags_of_bits b : toFlags (opts_of_bits b) = nflags_of_bits b.
 Proof.
   rewrite toFlags_exact. unfold opts_of_bits, nflags_of_bits. cbn [toFlags_opts_WriteDefaultField toFlags_opts_DisallowUnknownField
     toFlags_opts_EnableValueMapping toFlags_opts_EnableHttpMapping toFlags_opts_String2Int64 toFlags_opts_WriteRequireField
-    toFlags_opts_NoBase64Binary toFlags_opts_WriteOptionalField toFlags_opts_ReadHttpValueFallback]. reflexivity.
+    toFlags_opts_NoBase64Binary toFlags_opts_WriteOptionalField toFlags_opts_ReadHttpValueFallback toFlags_opts_TracebackRequredOrRootFields]. reflexivity.
 Qed.
 
 (* the two expectations of check 291 / 1691 coincide: agreement with the generated definition IS agreement with the native word *)
@@ -100,7 +100,7 @@ From DG Require HttpMap.
 Definition opts_of_hopts (h : HttpMap.hopts) : toFlags_opts :=
   {| toFlags_opts_DisallowUnknownField := false; toFlags_opts_EnableHttpMapping := true; toFlags_opts_EnableValueMapping := false;
      toFlags_opts_NoBase64Binary := HttpMap.o_nob64 h; toFlags_opts_ReadHttpValueFallback := HttpMap.o_rhf h;
-     toFlags_opts_String2Int64 := false; toFlags_opts_WriteDefaultField := HttpMap.o_wd h;
+     toFlags_opts_String2Int64 := false; toFlags_opts_TracebackRequredOrRootFields := HttpMap.o_tb h; toFlags_opts_WriteDefaultField := HttpMap.o_wd h;
      toFlags_opts_WriteOptionalField := HttpMap.o_wo h; toFlags_opts_WriteRequireField := HttpMap.o_wr h |}.
 
 Lemma toFlags_hopts h :
@@ -109,9 +109,9 @@ Lemma toFlags_hopts h :
   flag_on (toFlags (opts_of_hopts h)) NF_WRITE_REQUIRE = HttpMap.o_wr h /\
   flag_on (toFlags (opts_of_hopts h)) NF_WRITE_DEFAULT = HttpMap.o_wd h /\
   flag_on (toFlags (opts_of_hopts h)) NF_WRITE_OPTIONAL = HttpMap.o_wo h /\
-  flag_on (toFlags (opts_of_hopts h)) NF_TRACE_BACK = HttpMap.o_rhf h /\
+  flag_on (toFlags (opts_of_hopts h)) NF_TRACE_BACK = (HttpMap.o_rhf h || HttpMap.o_tb h) /\
   flag_on (toFlags (opts_of_hopts h)) NF_NO_BASE64 = HttpMap.o_nob64 h /\
   flag_on (toFlags (opts_of_hopts h)) NF_VALUE_MAPPING = false /\ flag_on (toFlags (opts_of_hopts h)) NF_STRING_INT = false.
 Proof. pose proof (toFlags_tests (opts_of_hopts h)) as T. cbn [opts_of_hopts toFlags_opts_WriteDefaultField toFlags_opts_DisallowUnknownField
     toFlags_opts_EnableValueMapping toFlags_opts_EnableHttpMapping toFlags_opts_String2Int64 toFlags_opts_WriteRequireField
-    toFlags_opts_NoBase64Binary toFlags_opts_WriteOptionalField toFlags_opts_ReadHttpValueFallback negb] in T. tauto. Qed.
+    toFlags_opts_NoBase64Binary toFlags_opts_WriteOptionalField toFlags_opts_ReadHttpValueFallback toFlags_opts_TracebackRequredOrRootFields negb andb] in T. tauto. Qed.
